@@ -294,6 +294,10 @@ def build_arg(t, i, pat, keep):
     if t is ctypes.c_char_p:
         s = ('probe%d-%d' % (i, pat)).encode()
         return t(s), ('char*', s.decode())
+    if t is ctypes.c_wchar_p:
+        # a wide-character string where C expects char *: C sees 4-byte units (the first character, then a NUL byte)
+        sw = 'probe%d-%d' % (i, pat)
+        return t(sw), ('wchar*', sw)
     if t is ctypes.c_void_p:
         return t(0), ('ptr', 0)
     if isinstance(t, type) and issubclass(t, ctypes._Pointer):
